@@ -218,9 +218,12 @@ func init() {
 			{Harness: "vhC13", Params: P("K", 3, "TYPEKINDS", 1, "CTXCANCEL", 1), Covers: []string{"C13/dispatched"}},
 			// two goroutines: a dispatch in progress (holding the lock inside a callback) and an unsubscribe; mutex
 			// acquisitions are scheduling points here, every interleaving is explored
-			{Harness: "vhC13Threads", Params: P("LOCKSCHED", 1), Covers: []string{"C13/Threads/ran"}, Threads: true, Stress: 50, NoNative: true, MaxSteps: 20000000}},
+			{Harness: "vhC13Threads", Params: P("LOCKSCHED", 1), Covers: []string{"C13/Threads/ran"}, Threads: true, Stress: 50, NoNative: true, MaxSteps: 20000000},
+			{Harness: "vhC13ThreadsSub", Params: P("LOCKSCHED", 1), Covers: []string{"C13/Threads/ran"}, Threads: true, Stress: 2000, NoNative: true, MaxSteps: 20000000},
+			// the type an event is dispatched under: named events without data followed by unnamed ones
+			{Harness: "vhC01SmallBufConn", Params: P("L", 16)}},
 		Thorough: []hrun{{Harness: "vhC13", Params: P("K", 4, "TYPEKINDS", 1, "CTXCANCEL", 1), Covers: []string{"C13/dispatched"}}, {Harness: "vhC13", Params: P("K", 5, "TYPEKINDS", 3), Covers: []string{"C13/dispatched", "C13/removed"}}, {Harness: "vhC13", Params: P("K", 6, "TYPEKINDS", 1), Covers: []string{"C13/dispatched", "C13/removed"}}, {Harness: "vhC01Conn", Params: P("N", 4, "SEG", 0), Covers: []string{"C01/Conn/some-event"}}},
-		Labels:   []string{"C13/", "lock-discipline/", "C01/Conn/events-equal-spec", "C01/Conn/event-count"},
+		Labels:   []string{"C13/", "lock-discipline/", "C01/Conn/events-equal-spec", "C01/Conn/event-count", "C01/SmallBufConn/events-equal-spec", "C01/SmallBufConn/event-count"},
 		Bounds: map[string]string{
 			"quick":    "every history of 5 operations from {SubscribeEvent(type: symbolic string <=1 byte), SubscribeMessages, SubscribeToAll, call any earlier remover (also repeatedly / stale after re-subscription), dispatch an event of symbolic type <=1 byte}; during each dispatch a second goroutine may call any remover at any callback boundary and completes iff it can take the lock; lock discipline of callbacks/callbacksAll/callbackID checked on every access; stream order -> dispatch order through Connection.read for all streams <=3 bytes",
 			"thorough": "histories of 6 operations; streams <=4 bytes",
@@ -245,11 +248,13 @@ func init() {
 		r = append(r, hrun{Harness: "vhC20Connect", Params: P("L", 4)}, hrun{Harness: "vhC20Connect", Params: P("L", 16)})
 		// "unlimited" configurations: no call panics, nothing is allocated up front
 		r = append(r, hrun{Harness: "vhC20Huge", Covers: []string{"C20/Huge/ran"}})
+		// small events delivered completely whatever the way the stream ends (last bytes together with io.EOF)
+		r = append(r, hrun{Harness: "vhC01TwoEventsRead", Covers: []string{"C01/TwoEventsRead/some-event"}})
 		return r
 	}
 	checks["C20"] = &propCheck{
 		ID: "C20", Quick: c20([]int{2, 3, 4}, 5, 1), Thorough: append(c20([]int{5}, 6, 1), c20([]int{6}, 8, 0)...),
-		Labels: []string{"C20/", "C01/SmallBuf", "panic:"},
+		Labels: []string{"C20/", "C01/SmallBuf", "C01/TwoEventsRead", "panic:"},
 		Bounds: map[string]string{
 			"quick":    "limit L in {2,3,4} through ReadConfig.MaxEventSize and through Connection.Buffer(buf, L) with an initial buffer of every capacity 0..L+1 (or nil); every stream <=5 bytes (all byte values), every segmentation into read chunks; the real bufio.Scanner buffer growth/compaction logic runs with these small numbers",
 			"thorough": "quick plus: L = 5 with streams <=6 bytes and all segmentations; L = 6 with streams <=8 bytes in one chunk",
@@ -276,7 +281,7 @@ func init() {
 			{Harness: "vhC01SmallBufConn", Params: P("L", 16), Covers: []string{"C01/SmallBufConn/some-event"}},
 			{Harness: "vhC01ConnTpl", Params: P("LINES", 3, "HOLE", 0, "NAMES", 2, "PREFIXES", 1), Covers: []string{"C01/ConnTpl/some-event"}},
 			// the end condition when the reader fails (a read error, also one that wraps io.EOF, is not a clean end)
-			{Harness: "vhC11Read", Params: P("N", 3, "SEG", 1), Covers: []string{"C11/Read/failing-reader"}},
+			{Harness: "vhC11Read", Params: P("N", 4, "SEG", 1), Covers: []string{"C11/Read/failing-reader"}},
 			{Harness: "vhC11ConnRead", Params: P("N", 3, "SEG", 1), Covers: []string{"C11/ConnRead/failing-reader"}},
 		},
 		Thorough: []hrun{
@@ -342,6 +347,10 @@ func init() {
 			{Harness: "vhC10Connect", Params: P("A", 2, "CANCEL", 0, "BODYKINDS", 1, "TPLMASK", 256), Covers: []string{"C10/Connect/header-sent"}},
 			// the stored ID must survive the scanner compacting its buffer (16-byte buffer on short streams)
 			{Harness: "vhC01SmallBufConn", Params: P("L", 16)},
+			// two Connections made from one *http.Request do not share what they send
+			{Harness: "vhC10TwoConns", Covers: []string{"C10/TwoConns/ran"}},
+			// transport failures that are dial errors (*net.OpError), followed by a connection and its loss
+			{Harness: "vhC10Connect", Params: P("A", 3, "CANCEL", 0, "BODYKINDS", 5, "TPLMASK", 1, "DIALERR", 1), Covers: []string{"C10/Connect/getbody-failed"}},
 		},
 		Thorough: []hrun{
 			{Harness: "vhC10Connect", Params: P("A", 3, "CANCEL", 1, "BODYKINDS", 1, "TPLMASK", 7), Covers: []string{"C10/Connect/header-sent"}, NoNative: true},
@@ -409,6 +418,8 @@ func init() {
 			joe("vhC06Joe", "NSUB", 1, "NMSG", 2, "NSHUT", 0, "CANCEL", 0, "TOPICS", 0, "ERRKIND", 1),
 			// two overlapping Shutdown calls
 			joe("vhC06Joe", "NSUB", 1, "NMSG", 0, "NSHUT", 2, "CANCEL", 0, "TOPICS", 0),
+			// a subscription whose context may already be done when Subscribe is called
+			joe("vhC06Joe", "NSUB", 1, "NMSG", 0, "NSHUT", 0, "CANCEL", 1, "TOPICS", 0),
 		},
 		Thorough: []hrun{
 			joe("vhC06Joe", "NSUB", 2, "NMSG", 1, "NSHUT", 0, "CANCEL", 1, "TOPICS", 0),
@@ -568,6 +579,10 @@ func init() {
 			{Harness: "vhC05", Params: P("MSGS", 2, "ATTEMPTS", 2, "AUTO", 1, "N", 0, "SMALLBUF", 24), Covers: []string{"C05/all-received", "C05/cut-mid-stream"}},
 			// each response body handed over in two reads split at every offset (besides the cut)
 			{Harness: "vhC05", Params: P("MSGS", 2, "ATTEMPTS", 2, "AUTO", 1, "N", 0, "SPLIT", 1, "NOTYPE", 1), Covers: []string{"C05/all-received", "C05/cut-mid-stream"}},
+			// three attempts: a reconnection may be cut before it delivers anything
+			{Harness: "vhC05", Params: P("MSGS", 2, "ATTEMPTS", 3, "AUTO", 1, "N", 0, "NOTYPE", 1), Covers: []string{"C05/all-received", "C05/cut-mid-stream"}},
+			// data that ends in an empty line
+			{Harness: "vhC05", Params: P("MSGS", 2, "ATTEMPTS", 2, "AUTO", 1, "N", 1, "NOTYPE", 1, "TRAILNL", 1), Covers: []string{"C05/all-received", "C05/cut-mid-stream"}},
 			// a Server whose OnSession picks the topics itself
 			{Harness: "vhC05", Params: P("MSGS", 2, "ATTEMPTS", 2, "AUTO", 1, "N", 0, "NOTYPE", 1, "ONSESSION", 1), Covers: []string{"C05/all-received", "C05/cut-mid-stream"}},
 			// "a replayer large enough": the ValidReplayer's ring must keep Put order through grow/GC (one inductive step)
